@@ -246,7 +246,7 @@ def r_reg_callers(ck: Checker, ncls: set[str]) -> None:
             if c.func.attr == "replace" and not ev:
                 continue  # str.replace and the like
             n += 1
-            ck.violation("R-REG-CALLERS", f, c, what, construct=f"{f.qualname} calls {norm(c)[:60]} ({ev or 'registry operation'})")
+            ck.violation("R-REG-CALLERS", f, c, what, positive=True, construct=f"{f.qualname} calls {norm(c)[:60]} ({ev or 'registry operation'})")
     if not n:
         ck.holds("R-REG-CALLERS", ("src/pyoak", "*"), None, what)
 
@@ -348,6 +348,50 @@ def r_field_writes(ck: Checker, rule: str) -> None:
         ck.holds(rule, (ck.repo.mod("pyoak.node").rel, "*"), None, what)
 
 
+def r_operand_alias_mutation(ck: Checker, rule: str = "R-INPLACE", modnames: tuple[str, ...] = ("pyoak.origin",)) -> None:
+    """Origins are values held by nodes.  A function that binds a local to a container *inside* one of its operands (`acc = o.origins`, no copy)
+    and then edits that local in place edits the operand — the origin of every node that holds it (positive pattern)."""
+    EDITS = ("append", "extend", "insert", "remove", "pop", "clear", "sort", "reverse", "update", "add", "discard", "setdefault", "__iadd__")
+    from .state_rules import _raw_functions
+    n = 0
+    for modname in modnames:
+        m_ = ck.repo.mod(modname)
+        for q, fn, _cls in _raw_functions(m_):
+            params = {a.arg for a in fn.args.args + fn.args.kwonlyargs + fn.args.posonlyargs} | ({fn.args.vararg.arg} if fn.args.vararg else set())
+            operands = set(params)
+            for lp in ast.walk(fn):  # elements of an operand sequence are operands
+                if isinstance(lp, (ast.For, ast.comprehension)) and any(isinstance(x, ast.Name) and x.id in params for x in ast.walk(lp.iter)):
+                    operands |= {x.id for x in ast.walk(lp.target) if isinstance(x, ast.Name)}
+            aliases: dict[str, ast.AST] = {}
+            for st in ast.walk(fn):
+                if isinstance(st, ast.Assign) and len(st.targets) == 1 and isinstance(st.targets[0], ast.Name):
+                    v = st.value
+                    root = v
+                    while isinstance(root, ast.Attribute):
+                        root = root.value
+                    if isinstance(v, ast.Attribute) and isinstance(root, ast.Name) and root.id in operands and root.id not in ("self", "cls"):
+                        aliases[st.targets[0].id] = st
+            if not aliases:
+                continue
+            n += 1
+            bad = None
+            for x in ast.walk(fn):
+                if isinstance(x, ast.Call) and isinstance(x.func, ast.Attribute) and x.func.attr in EDITS and isinstance(x.func.value, ast.Name) and x.func.value.id in aliases:
+                    bad = (x, x.func.value.id)
+                elif isinstance(x, ast.AugAssign) and isinstance(x.target, ast.Name) and x.target.id in aliases:
+                    bad = (x, x.target.id)
+                elif isinstance(x, ast.Subscript) and isinstance(x.ctx, (ast.Store, ast.Del)) and isinstance(x.value, ast.Name) and x.value.id in aliases:
+                    bad = (x, x.value.id)
+            what = f"{q}: a container taken from an operand is copied before it is extended (operands are values held by live nodes)"
+            if bad:
+                ck.violation(rule, (m_.rel, q), bad[0], what, positive=True,
+                             construct=f"{q}: `{norm(aliases[bad[1]])[:50]}` binds `{bad[1]}` to the operand's own container and `{norm(bad[0])[:40]}` edits it in place — the origin of every node holding that operand changes")
+            else:
+                ck.holds(rule, (m_.rel, q), fn, what)
+    if n == 0:
+        ck.holds(rule, (modnames[0], "*"), None, "no function binds a local to a container inside one of its operands")
+
+
 def r_payload_inplace(ck: Checker) -> None:
     """The mapping handed to __post_serialize__ is new, but what sits inside it may be the node's own values (mashumaro passes the
     values of untyped fields through).  A function that edits its argument in place *and* descends into the argument's elements edits
@@ -412,6 +456,7 @@ def run(ck: Checker) -> None:
     ck.guard("R-DESER-ID", lambda: r_deser_id(ck))
     from .c03 import r_reg_pair, r_reg_who
     ck.guard("R-REG-OWN", lambda: r_reg_who(ck))  # construction does not change the registry membership of nodes that existed before
+    ck.guard("R-INPLACE", lambda: r_operand_alias_mutation(ck))
     ck.guard("R-REG-PAIR", lambda: r_reg_pair(ck))  # a failed replace leaves the receiver registered
     if ck.tier == "thorough":
         ck.explanation += (" Thorough tier: mypy (the repository's own dev dependency, used as a library) infers the type of every write receiver "
